@@ -263,8 +263,8 @@ fn main() {
     // ---------------------------------------------------------------- coll
     let lens_small: Vec<usize> = vec![0, 1, 2, 2, 3, 3, 4, 5, 6, 8, 10, 13];
     let lens_long: Vec<usize> = vec![20, 21, 22, 34, 55, 89, 144, 233, 300];
-    let n_small = if thorough { 4000 } else { 330 };
-    let n_long = if thorough { 400 } else { 36 };
+    let n_small = if thorough { 2500 } else { 330 };
+    let n_long = if thorough { 250 } else { 36 };
     let mut budget_in_shard = 0usize;
     let mut do_case = |rng: &mut Rng, meta: &mut Meta, sink: Option<&mut Sink>, shape: usize, len: usize| {
         let (xs, path) = gen_array(rng, shape, len);
@@ -344,7 +344,7 @@ fn main() {
     meta.extra.insert("oracle_only_nontrivial".into(), json!(n_oracle_only));
 
     // ---------------------------------------------------------------- access
-    let n_access = if thorough { 4000 } else { 500 };
+    let n_access = if thorough { 2500 } else { 500 };
     let ns: Vec<Value> = vec![Value::from(0u64), Value::from(1i64), Value::from(2u128), Value::from(-1i64), Value::from(5i128),
         Value::from(u64::MAX), Value::from(u128::MAX), Value::from(1i128 << 64), Value::from(1.0f64), Value::from(1.5f64), Value::from(-0.0f64),
         Value::from(f64::NAN), Value::from("1"), Value::none(), Value::from(true), Value::from(3u64), Value::from(12u64), Value::from(300u64)];
@@ -405,7 +405,7 @@ fn main() {
     }
 
     // ---------------------------------------------------------------- keys / values / pairs
-    let n_kvp = if thorough { 1500 } else { 150 };
+    let n_kvp = if thorough { 1000 } else { 150 };
     for i in 0..n_kvp {
         let size = i % 17;
         let mut e: Vec<(Key<'static>, Value)> = Vec::new();
@@ -470,7 +470,7 @@ fn main() {
     sj_cases.push((Value::safe_string("a<b>a"), Value::from("<")));
     sj_cases.push((Value::from("abc"), Value::from(1u64)));
     sj_cases.push((Value::from(12u64), Value::from("1")));
-    let n_rand_sj = if thorough { 3000 } else { 120 };
+    let n_rand_sj = if thorough { 2000 } else { 120 };
     for _ in 0..n_rand_sj {
         let alphabet = ['a', 'b', ',', 'é', '日'];
         let s: String = (0..rng.below(14)).map(|_| alphabet[rng.below(5)]).collect();
